@@ -234,4 +234,20 @@ pub proof fn lemma_registry_wf_after_update(p: Map<Seq<u8>, PairInfoRaw>, q: Map
         /*[C14 fexec.reject-no-write]*/ !is_owner(*old(deps.storage), info.sender.0@) ==> r is Err && *final(deps.storage) == *old(deps.storage),
         /*[C14 fexec.ownership-follows]*/ msg matches ExecuteMsg::UpdateConfig { owner, token_code_id, pair_code_id } ==> r is Ok ==> final(deps.storage).config is Some
             && final(deps.storage).config->Some_0.owner.0@ == (if owner is Some { canon_of(owner->Some_0@) } else { old(deps.storage).config->Some_0.owner.0@ }),
+        // the dispatcher hands every arm its own arguments: the registry guarantees of the handlers are restated at the entry point
+        /*[C16 fexec.create.checks]*/ msg matches ExecuteMsg::CreatePair { asset_infos, requirements, commission_rate, lp_token_info } ==> r is Ok ==>
+            !asset_infos[0].same(&asset_infos[1]) && (commission_rate is Some ==> commission_rate->Some_0.0.v() <= dd())
+            && final(deps.storage).tmp is Some && !old(deps.storage).pairs@.dom().contains(final(deps.storage).tmp->Some_0.pair_key@)
+            && tmp_ok(deps.querier.world(), env.contract.address.0@, asset_infos, final(deps.storage).tmp->Some_0),
+        /*[C16,C17 fexec.create.pair-told-recorded-values]*/ msg matches ExecuteMsg::CreatePair { asset_infos, requirements, commission_rate, lp_token_info } ==> r is Ok ==>
+            r->Ok_0.messages@.len() == 1 && (r->Ok_0.messages@[0].msg matches CosmosMsg::Wasm(WasmMsg::Instantiate { admin, code_id, msg, funds, label }) && funds@.len() == 0 &&
+            msg == bin_of(PairInstantiateMsg { asset_infos, token_code_id: old(deps.storage).config->Some_0.token_code_id, asset_decimals: final(deps.storage).tmp->Some_0.asset_decimals, requirements,
+                commission_rate: rate_or_default(commission_rate),
+                lp_token_info: LPTokenInfo { lp_token_name: lp_token_info.lp_token_name, lp_token_symbol: lp_token_info.lp_token_symbol, lp_token_decimals: lp_token_info.lp_token_decimals } })),
+        /*[C17 fexec.decimals.query-updated]*/ msg matches ExecuteMsg::AddNativeTokenDecimals { denom, decimals } ==> r is Ok ==> final(deps.storage).allow@ == old(deps.storage).allow@.insert(str_bytes(denom@), decimals),
+        /*[C17 fexec.decimals.reaches-all]*/ msg matches ExecuteMsg::AddNativeTokenDecimals { denom, decimals } ==> (r is Ok && registry_wf(old(deps.storage).pairs@) && old(deps.storage).allow@.dom().contains(str_bytes(denom@)) ==>
+            final(deps.storage).pairs@.dom() == old(deps.storage).pairs@.dom()
+            && (forall|k: Seq<u8>| #[trigger] old(deps.storage).pairs@.dom().contains(k) ==> dec_updated(old(deps.storage).pairs@[k], denom@, decimals, final(deps.storage).pairs@[k]))),
+        /*[C14,C07 fexec.migrate.message]*/ msg matches ExecuteMsg::MigratePair { contract, code_id } ==> r is Ok ==> r->Ok_0.msgs().len() == 1
+            && (r->Ok_0.msgs()[0] matches CosmosMsg::Wasm(WasmMsg::Migrate { contract_addr, new_code_id, msg }) && contract_addr@ == contract@ && new_code_id == (if code_id is Some { code_id->Some_0 } else { old(deps.storage).config->Some_0.pair_code_id })),
 //%end
